@@ -30,7 +30,7 @@ MANIFEST_NOTE = ("Partial: MPI itself is trusted (a transfer moves the typemap's
                  "inverts MPI_Pack; reliable pairwise-FIFO delivery) - these appear as definitions (transfer, Spec.*, Codec, "
                  "Tree).  The theorems are about the wrapper logic and the message-level specification; model fidelity "
                  "rests on the translator (type/op tables, user-op registration, every body of the sequential stand-in) and "
-                 "on the differential runs (P<=7, lengths <=5, reductions with user functors up to 5200 elements so that "
+                 "on the differential runs (P<=7, lengths <=5, reductions with user functors beyond 10 kB per contribution so that "
                  "MPI's long-message algorithms run).  The sequential stand-in copies whole objects where MPI copies "
                  "only the communicated members (IndexPair, ParallelLocalIndex): agreement is claimed and checked on the "
                  "communicated state.  Known library issue kept out of the generated inputs: Open MPI 4.1 evaluates "
@@ -51,7 +51,7 @@ RULE = ("cases: collective (sum/prod/min/max/user functors incl. associative non
         "bigunsignedint<96>,pair<int,char>,pair<long long,char>,IndexPair,ParallelLocalIndex; reduced call set: unsigned "
         "char,short,unsigned short,unsigned,unsigned long,float,long double,complex<float>,complex<long double>,long long,"
         "POD struct,pair<pair<long long,char>,short>,FieldVector<pair<long long,char>,2>,bigunsignedint<40>} x root x "
-        "lengths 0..5 (2600..5200 for a share of the user-functor reductions; rank dependent for the v-variants, "
+        "lengths 0..5 (just beyond 10 kB per contribution, 650..2900 elements, for a share of the user-functor reductions; rank dependent for the v-variants, "
         "displacement layouts compact/gaps/reversed/overlapping reads) with boundary values; point-to-point rings "
         "(isend/recv/rrecv/irecv, scalar/vector/string, with and without MPI_Status); MPIPack histories (0..6 items: scalar, "
         "std::array, vector, string; <</>> and write/read; local with resize/enlarge/eof, saved positions, nested, sent, "
@@ -71,7 +71,7 @@ ASSUMPTIONS = [
     "collectives are called within their documented preconditions (matching send/receive counts, non-overlapping gatherv "
     "segments, root < P)",
     "non-blocking variants are observed after get()/wait(); the future protocol itself belongs to C19",
-    "process counts 1-4 (quick) / 1-7 (thorough), lengths 0..5 (user-functor reductions up to 5200)",
+    "process counts 1-4 (quick) / 1-7 (thorough), lengths 0..5 (user-functor reductions up to 2900 elements)",
 ]
 TRUSTED = ["mpicxx/libstdc++, ASan/UBSan, Open MPI 4.1", "harness/mpi_c07.cc (cell conversion, oracle) + Driver/C07.lean parsing/printing",
            "harness/pmpi_sched.cc", "tools/translators/tr_c07.py (statement grammar for the stand-in's bodies)"]
